@@ -36,6 +36,9 @@ func (g *pgen) corpus(focus string, start int) []*ConvSpec {
 	if focus == "c02" {
 		return g.corpusC02(start)
 	}
+	if focus == "c18" {
+		return g.corpusC18(start)
+	}
 	if focus != "c11" {
 		return nil
 	}
@@ -417,6 +420,24 @@ func (g *pgen) corpusC05(start int) []*ConvSpec {
 			t := g.newNamed(1, &Ty{K: "struct", Pkg: 1, Fields: []Field{{f.Name, str}, {"Street", str}, {"X", i}}}, "T")
 			c := &ConvSpec{Name: fmt.Sprintf("C%d", start+len(out)), Custom: true, FuncNames: map[string]int{}}
 			c.Methods = []*MethodSpec{{Name: "M0", Src: tNamed(s), Tgt: tNamed(t), Lines: append([]string{"autoMap Inner"}, lines...), Auto: []string{"Inner"}, Fields: map[string]*fieldSet{}}}
+			out = append(out, c)
+		}
+	}
+	return out
+}
+
+// corpusC18: zero checks on struct fields that cannot be compared with != (a slice / map / func inside): whatever the
+// generator emits for them, it must not reach for reflect (today: known finding F-C01-4, the output does not compile).
+func (g *pgen) corpusC18(start int) []*ConvSpec {
+	var out []*ConvSpec
+	str, i := tBasic(bkString), tBasic(bkInt)
+	for _, inner := range [][]Field{{{"L", tSlice(i)}}, {{"M", tMap(str, i)}, {"N", i}}, {{"N", i}, {"S", str}}} {
+		for _, line := range []string{"update:ignoreZeroValueField", "update:ignoreZeroValueField:struct"} {
+			in := g.newNamed(1, &Ty{K: "struct", Pkg: 1, Fields: inner}, "S")
+			s := g.newNamed(1, &Ty{K: "struct", Pkg: 1, Fields: []Field{{"A", tNamed(in)}, {"B", i}}}, "S")
+			t := g.newNamed(1, &Ty{K: "struct", Pkg: 1, Fields: []Field{{"A", tNamed(in)}, {"B", i}}}, "T")
+			c := &ConvSpec{Name: fmt.Sprintf("C%d", start+len(out))}
+			c.Methods = []*MethodSpec{{Name: "M0", Src: tNamed(s), Tgt: tPtr(tNamed(t)), Update: true, Lines: []string{"update target", line}, Fields: map[string]*fieldSet{}}}
 			out = append(out, c)
 		}
 	}
